@@ -1419,7 +1419,8 @@ Proof.
     destruct (c =? 48) eqn:E.
     + replace (N.to_nat (1 + count_lead0 (r ++ rest))) with (S (N.to_nat (count_lead0 (r ++ rest)))) by lia.
       cbn [skipn]. specialize (IH Hrr Hr). lia.
-    + cbn [N.to_nat skipn]. change (N.to_nat 0) with O. cbn [skipn].
+    + change (N.to_nat 0) with O. cbn [skipn].
+      change (c :: r ++ rest) with ((c :: r) ++ rest).
       rewrite (count_rest_digits (c :: r) rest) by (cbn [forallb]; rewrite Hc; exact Hrr). cbn [length]. lia.
 Qed.
 
@@ -1454,7 +1455,6 @@ Proof.
                = 48 :: x :: body) by (destruct (f_neg l); reflexivity).
   match goal with |- context [hex_prefixed ?a] => replace a with (48 :: x :: body) by (symmetry; exact E2) end.
   cbn [hex_prefixed]. rewrite Hx. change ((48 =? 48) && (120 =? 120)) with true. cbv iota.
-  match goal with |- impl_hexfloat _ ?a = _ => replace a with (48 :: x :: body) by (symmetry; exact E2) end.
   unfold impl_hexfloat. cbn [skipn].
   (* scanning *)
   assert (HS : scan_float true false body = Some (float_mant l, float_exp l)).
@@ -1469,13 +1469,11 @@ Proof.
     2:{ destruct (fl_fo l); cbn [frac_part app]; [discriminate|].
         destruct (fl_eo l) as [[[u ?] ?]|]; cbn [with_p0 exp_part_chars]; [destruct u; discriminate | discriminate]. }
     unfold float_ndigits, fl_ic. rewrite Nat2N.inj_add. f_equal.
-    unfold fl_fo, frac_chars. destruct (f_frac l) as [d|]; cbn [option_map frac_part app length].
+    pose proof Hfo as Hfo'. unfold fl_fo in Hfo'. revert Hfo'.
+    unfold fl_fo, frac_chars. destruct (f_frac l) as [d|]; cbn [option_map frac_part app length opt_ok]; intro Hfo'.
     - cbn [count_rest]. change (c_dot =? c_dot) with true. cbv iota.
-      cbn [opt_ok fl_fo option_map] in Hfo. unfold fl_fo in Hfo. 
-      rewrite (count_rest_digits (dseq_chars d)).
-      + destruct (fl_eo l) as [[[u ?] ?]|]; cbn [with_p0 exp_part_chars count_rest]; [destruct u|]; cbn; lia.
-      + unfold fl_fo in Hfo. destruct (f_frac l); cbn [option_map opt_ok] in Hfo; try discriminate.
-        admit.
+      rewrite (count_rest_digits (dseq_chars d) _ Hfo').
+      destruct (fl_eo l) as [[[u ?] ?]|]; cbn [with_p0 exp_part_chars count_rest]; [destruct u|]; cbn; lia.
     - destruct (fl_eo l) as [[[u ?] ?]|]; cbn [with_p0 exp_part_chars count_rest]; [destruct u|]; reflexivity. }
   rewrite HC.
   unfold spec_hex.
@@ -1484,5 +1482,6 @@ Proof.
                         && (float_exp l + Z.of_N (N.log2 (float_mant l)) + 1 <? 2 ^ 31)%Z) = false).
   { destruct Hrange as [H0 | H1]; [rewrite H0; reflexivity|].
     apply andb_false_iff. right. apply negb_false_iff. apply andb_true_iff. split; lia. }
-  rewrite HR. reflexivity.
-Admitted.
+  rewrite HR. destruct (f64_exact (float_mant l) (float_exp l)); [reflexivity|].
+  destruct (odd_part (float_mant l)); reflexivity.
+Qed.
